@@ -125,6 +125,18 @@ class ClientTransport:
         data = dumps(self.ser, obj)
         self.send_bytes(data)
 
+    def send_raw_many(self, objs):
+        """several messages in ONE read (no event-loop turn between them)"""
+        chunk = b""
+        for obj in objs:
+            data = dumps(self.ser, obj)
+            if self.kind == "ws":
+                chunk += ref6455.encode_frame(2 if binary(self.ser) else 1, data)
+            else:
+                chunk += struct.pack("!L", len(data)) + data
+        self.ep.feed(chunk)
+        self.d.settle()
+
     def send_bytes(self, data, binary_flag=None):
         if self.kind == "ws":
             b = binary(self.ser) if binary_flag is None else binary_flag
